@@ -21,10 +21,12 @@ seam checks through the trace hook (they localise a failure and tie the stage mo
 import json, os, shutil
 
 from harness.gen import sim
+from harness.gen import c02_forms as FORMS
 
 RULE = ("generated phasing scenarios with ground truth: 1-2 contigs, 3-14 well separated variants (SNV, MNP, "
         "insertion, deletion), 1-3 samples with own true haplotypes, error-free single and paired reads, depth 2-40 "
-        "(above the internal cap of 15), options --tag PS/HP, --only-snvs, --sample subsets, --ignore-read-groups "
+        "(above the internal cap of 15), input genotypes in every textual form (0/1, 1/0, 0|1, 1|0 with/without PS, HP values, "
+        "mixed within a phase set), options --tag PS/HP, --only-snvs, --sample subsets, --ignore-read-groups "
         "(single sample). Non-trivial = at least one phase set with >= 2 variants in the output; distinct = distinct "
         "(seed-derived) scenario")
 ASSUMPTIONS = ["'well separated' = consecutive variants at least 25 bp apart (beyond the 10 bp re-alignment overhang)",
@@ -227,6 +229,22 @@ def run(ctx):
                             call["PS"] = "."
                 sim.write_vcf(vcf, sc.contigs, sc.samples, recs, fmt_defs=ps_fmt)
                 ctx.dist("input_vcf", "pre-phased (wrong)")
+            # textual form of the input genotypes (round 7; own random stream, so the scenarios themselves are the same as
+            # before): `0/1`, `1/0`, `0|1`/`1|0` with and without PS, HP next to either order, homozygous `1|1` — chosen per
+            # call, hence mixed within a phase set.  None of it is phase input: the output must be the truth for both tags
+            r3 = random.Random(case["scenario_seed"] ^ 0xC02F)
+            gt_forms = case.get("gt_forms") or (FORMS.gen_mode(r3) if (not prephased and r3.random() < 0.7) else None)
+            input_marked = prephased
+            if gt_forms and not prephased:
+                recs = sc.vcf_records()
+                fmt_defs, marked, used = FORMS.rewrite(r3, recs, gt_forms)
+                sim.write_vcf(vcf, sc.contigs, sc.samples, recs, fmt_defs=fmt_defs)
+                input_marked = marked
+                ctx.dist("input_vcf", "genotype forms: " + gt_forms)
+                for k, n_ in used.items():
+                    ctx.dist("input_genotype_form", k)
+            elif not prephased:
+                ctx.dist("input_vcf", "plain 0/1")
             bams = [bam]
             if two_files and len({file_of[id(r)] for r in sc.reads}) < 2:
                 two_files = False    # an empty alignment file is rejected by whatshap (not a C02 matter)
@@ -252,7 +270,7 @@ def run(ctx):
             args += [vcf] + bams
             rc, out, err, trace = sim.whatshap(args, ctx.overlay, trace=os.path.join(d, "trace.jsonl"))
             ctx.evaluated()
-            desc = {**case, "args": args[1:], "samples": sc.samples, "kinds": list(kinds), "deep": deep}
+            desc = {**case, "args": args[1:], "samples": sc.samples, "kinds": list(kinds), "deep": deep, "gt_forms": gt_forms}
             if rc != 0:
                 ctx.fail("whatshap phase failed on a well-formed error-free scenario: " + err[-400:], desc, key="phase-crash")
                 continue
@@ -262,7 +280,7 @@ def run(ctx):
             for si, s in enumerate(samples):
                 ph = sim.decode_phase(recs, si)
                 if s not in target:
-                    if ph and not prephased:
+                    if ph and not input_marked:
                         ctx.fail(f"sample {s} was not selected but is phased in the output", desc, key="unselected-phased")
                     continue   # an unselected sample keeps whatever its input calls carried (C04): nothing to compare
                 sets = {}
